@@ -8,3 +8,7 @@ import ChiaModel.Props.C09
 #print axioms ChiaModel.C09.bundle_additions
 #print axioms ChiaModel.C09.bundle_additions_of_limit
 #print axioms ChiaModel.C02.native_invariants
+#print axioms ChiaModel.C09.withconds_coinspends
+#print axioms ChiaModel.C09.withconds_of_accept
+#print axioms ChiaModel.C09.listing_spec
+#print axioms ChiaModel.C09.listing_create_coin
